@@ -80,8 +80,16 @@ bool MPSInput::readLine()
       // Read until we have a non-empty, non-comment line.
       do
       {
-         if(!m_input.getline(m_buf, sizeof(m_buf)).good() && !m_input.eof())
-            return false;
+         if(!m_input.getline(m_buf, sizeof(m_buf)).good())
+         {
+            // read error or line too long
+            if(!m_input.eof())
+               return false;
+
+            // end of file and nothing left to read; without this test an empty buffer is taken for a comment line forever
+            if(m_input.gcount() == 0)
+               return false;
+         }
 
          m_lineno++;
 
